@@ -227,7 +227,7 @@ func main() {
 	r := seq.New("C04", tier, "exploration")
 	defer r.CrashGuard()
 	defer r.Watch()()
-	r.Rule = "exhaustive finite product: (logger level, global level, event level, sampler behaviour) through WithLevel and through each named level method; all 256 level text forms; every exported *Event method (reflection) on a filtered event singly and in ordered pairs; Panic/Fatal filtered and unfiltered (Fatal in re-executed child processes); distinct = distinct (configuration, written?, level seen, sampler calls); non-trivial = the event passed at least one of the two level tests but not necessarily both"
+	r.Rule = "exhaustive finite product: (logger level, global level, event level, sampler behaviour) through WithLevel and through each named level method; all 256 level text forms; every exported *Event method (reflection) on a filtered event singly and in ordered pairs; Panic/Fatal filtered and unfiltered (Fatal in re-executed child processes); the same gate oracle on 11 derivations / configuration orders of a configured logger (12x12 level grid x 256 event levels x 3 samplers); distinct = distinct (configuration, written?, level seen, sampler calls); non-trivial = the event passed at least one of the two level tests but not necessarily both"
 	r.Assumptions = []string{"event levels: the statement's 136 (-128..6 and Disabled) and, beyond it, the custom levels 8..127", "Fatal is observed through the exit status of a re-executed copy of this binary"}
 
 	w := &recLW{}
